@@ -237,6 +237,7 @@ pub fn dump_into<W: Write + Seek>(o: &DumpOpts, dest: &mut W) -> Outcome {
 }
 
 pub fn dump_with<W: Write + Seek>(w: &mut MinidumpWriter, dest: &mut W) -> Outcome {
+    let _w = crate::util::watch_call("dump request", None);
     let r = std::panic::catch_unwind(std::panic::AssertUnwindSafe(|| w.dump(dest)));
     match r {
         Ok(Ok(v)) => Outcome::Ok(v),
